@@ -9,7 +9,7 @@
    combinators of proof stage 2), domb pod s v : v is in the derived domain of s in that mode,
    delimited s : s is self-delimiting (otherwise it consumes the rest of its window). *)
 From Coq Require Import NArith ZArith List Bool.
-From HV Require Import Base.Bytes Spec.Spec Spec.SpecLemmas Spec.SpecSize Spec.SpecProofs Spec.SpecReject.
+From HV Require Import Base.Bytes Spec.Spec Spec.SpecLemmas Spec.SpecSize Spec.SpecProofs Spec.SpecReject Spec.SpecAdapters.
 Import ListNotations.
 Open Scope N_scope.
 
@@ -139,6 +139,22 @@ Proof.
   - now apply reject_typed_member.
 Qed.
 Print Assumptions C08_reject_propagates.
+
+(* the adapter domains are as large as they can be: whatever IntEnum / IntFlag can decode from an int
+   of the child's domain is a value of the domain (and re-encodes to that int) *)
+Theorem C08_enum_domain_complete : forall tbl strict pod (D : value -> bool) z v,
+  nodupN (map fst tbl) = true -> D (VInt z) = true ->
+  adec (AEnum tbl strict) pod (VInt z) = Some v ->
+  adomb (AEnum tbl strict) pod D v = true.
+Proof. exact enum_domain_complete. Qed.
+Print Assumptions C08_enum_domain_complete.
+
+Theorem C08_flag_domain_complete : forall tbl (D : value -> bool) z,
+  flags_ok tbl = true -> D (VInt z) = true ->
+  aenc (AFlag tbl) (VList (flags_to_pod tbl z)) = Some (VInt z) /\
+  adomb (AFlag tbl) true D (VList (flags_to_pod tbl z)) = true.
+Proof. exact flag_domain_complete. Qed.
+Print Assumptions C08_flag_domain_complete.
 
 (* the binary-counter loop of the executable model is the plain [for _ in range(n)] loop *)
 Theorem C08_de_count_spec : forall f n b, de_count f n b = de_n f (N.to_nat n) b.
@@ -276,6 +292,9 @@ Proof.
   split; [reflexivity|]. split; [reflexivity|]. split; [vm_compute; reflexivity|].
   intros b H. apply (C08_rt_window true true ex_switches [] [] ex_switches_value b); [reflexivity|reflexivity|exact H].
 Qed.
+
+Example C08_ex_flags_ok : flags_ok ex_flags = true /\ flags_to_pod ex_flags (-2) = [VName 1; VName 2; VInt (-70)].
+Proof. vm_compute. split; reflexivity. Qed.
 
 Example C08_ex_calc_size_tuple_cstr :
   calc_size (STuple [SPrim (PI (IP false W1)); SCStr [0] true true]) = None.
